@@ -14,8 +14,9 @@
 
 static size_t g_k;
 #define B(n, k) (((const unsigned char *)&(n))[k])
-#define CTX_SETUP(c) INPUT(secp256k1_context, c); INPUT(size_t, k); secp256k1_context c##_0; \
-    verif_ctx_init(&c); c.hash_ctx.fn_sha256_compression = secp256k1_sha256_transform; \
+#define CTX_SETUP(c) INPUT(secp256k1_context, c); INPUT(size_t, k); INPUT(int, c##_decl); secp256k1_context c##_0; \
+    verif_ctx_init(&c); c.declassify = c##_decl; /* arbitrary: a before/after comparison cannot see a write of the value already there */ \
+    c.hash_ctx.fn_sha256_compression = secp256k1_sha256_transform; \
     __CPROVER_assume(k < sizeof(secp256k1_context)); g_k = k; c##_0 = c; HASHLOG_RESET()
 #define CTX_FRAME(c, text) { __CPROVER_assert(B(c, g_k) == B(c##_0, g_k), text); __CPROVER_assert(g_error == 0, "C20 frames: error callback never invoked"); }
 #define OBJ(T, n) INPUT(T, n); INPUT(_Bool, has_##n); T *p_##n = has_##n ? &n : NULL
